@@ -344,6 +344,9 @@ func (r *Runner) Exec(act Action) (res Result) {
 	case "ExtBurn":
 		den := act.Den
 		if den == 0 {
+			den = a.Cfg.FracDen
+		}
+		if den == 0 {
 			den = 1
 		}
 		a.PK.BurnValidator(a.Ctx(), a.Addr(act.From), sdk.NewDec(act.Num).QuoInt64(den))
